@@ -27,6 +27,7 @@ ASSUMPTIONS = [
     'the absolute token count `stats` reports is not judged (no property states PICO-8\'s counting rule); only that a string literal / name counts the same whatever it spells',
 ]
 EXHAUSTIVE = {'quick': False, 'thorough': False}
+PYOPT_KINDS = ('programs',)
 KNOWN_KEYS = {'exp-plus-sign', 'keyword-glyph-boundary', 'long-comment-level', 'number-value-upper-or-empty-int',
               'longstring-first-newline', 'hex-escape', 'comment-swallows-cr', 'backslash-crlf', 'nul-escape-before-digit'}
 
